@@ -658,7 +658,8 @@ class TypeTransformer:
         if self.no_explicit_cast:
             return t(data)  # noqa
         if not self.no_data_loss:
-            if data in t.__members__:  # noqa
+            if isinstance(data, str) and data in t.__members__:  # noqa
+                # member names are str (testing an unhashable value like a list would raise TypeError)
                 return t.__members__[data]  # noqa
         member_type = getattr(t, "_member_type_", None)
         if member_type and member_type != object:
